@@ -19,7 +19,12 @@ env=dict(os.environ, CARGO_NET_OFFLINE="true", FXV_VERIF_DIR=f"{base}/verif", FX
 allchecks=[c['property_id'] for c in json.load(open('/verif/MANIFEST.json'))['checks']]
 for seed in seeds:
     home=seed.split('-')[0]
-    checks = allchecks if which=="all" else ([home] if which=="home" else which.split(','))
+    # "rel": the seed's own check plus the checks of neighbouring properties (a change made for one
+    # property often shows under another one's oracle)
+    REL={"C01":["C19","C08","C15"],"C02":["C17","C05","C13"],"C03":["C15"],"C04":["C07","C15"],"C05":["C02","C12"],"C06":["C19","C11","C07"],
+         "C07":["C16","C14"],"C08":["C15","C19","C01"],"C09":["C01"],"C10":["C14","C17"],"C11":["C16","C19"],"C12":["C05"],"C13":["C12","C02"],
+         "C14":["C10","C07"],"C15":["C03","C08"],"C16":["C07","C14"],"C17":["C02","C05"],"C18":["C19","C15"],"C19":["C07","C08"],"C20":["C19","C10"]}
+    checks = allchecks if which=="all" else ([home] if which=="home" else ([home]+REL.get(home,[]) if which=="rel" else which.split(',')))
     sh("git checkout -q -- . && git clean -fdq", cwd=f"{base}/repo")
     rc,out=sh(f"git apply /verif/seeded/{seed}/patch.diff", cwd=f"{base}/repo")
     res={"seed":seed,"apply_rc":rc,"checks":{}}
